@@ -148,6 +148,8 @@ type Exec struct {
 	specOverride map[*ssa.Function]*FuncSpec
 	initVals     map[*ssa.Package]map[*ssa.Global]Value
 	facts        map[int]bool
+	pcSubstFor   *Term
+	pcSubstMap   map[int]*Term
 	eqConst      map[int]*Term
 }
 
@@ -593,6 +595,10 @@ func (x *Exec) get(v ssa.Value) Value {
 		return UnknownV{nil, "builtin value"}
 	}
 	if r, ok := x.st.regs[v]; ok {
+		if sv, isS := r.(SliceV); isS && !(sv.Len.IsConst() && sv.Nil.IsConst()) {
+			curExec = x
+			return asSlice(sv) // header simplified under the path condition
+		}
 		return r
 	}
 	unsup("undefined SSA value %s (%T) in %s", v.Name(), v, x.funcName())
@@ -1343,6 +1349,9 @@ func (x *Exec) sliceVal(base Value, i *ssa.Slice, fr *Frame) Value {
 	} else {
 		mx = capT
 	}
+	if os.Getenv("GOVC_DEBUG_SLICE") != "" && !(fr.ghost || x.ghost > 0) {
+		fmt.Fprintf(os.Stderr, "SLICE %s lo=%s hi=%s len=%s cap=%s in %s\n", x.P.Fset.Position(i.Pos()), lo.Short(), func() string { if hi != nil { return hi.Short() }; return "-" }(), s.Len.Short(), s.Cap.Short(), x.funcName())
+	}
 	if !(fr.ghost || x.ghost > 0) {
 		if i.High != nil {
 			if isStr {
@@ -1837,7 +1846,7 @@ func (x *Exec) builtin(fr *Frame, name string, cc *ssa.CallCommon, args []Value,
 	case "len":
 		switch a := args[0].(type) {
 		case SliceV:
-			return Scalar{a.Len}
+			return Scalar{asSlice(a).Len}
 		case MapV:
 			return Scalar{bv64(int64(len(a.Keys)))}
 		case ArrayV:
@@ -1848,7 +1857,7 @@ func (x *Exec) builtin(fr *Frame, name string, cc *ssa.CallCommon, args []Value,
 		unsup("len of %T", args[0])
 	case "cap":
 		if a, ok := args[0].(SliceV); ok {
-			return Scalar{a.Cap}
+			return Scalar{asSlice(a).Cap}
 		}
 		unsup("cap of %T", args[0])
 	case "append":
